@@ -401,7 +401,7 @@ func init() {
 	})
 	pure("sort.Strings", nil)
 	externs["sort.Strings"] = func(x *X, s *State, c *ssa.CallCommon, a []Val, call ssa.Value) (Val, bool) {
-		return x.sortStrings(s, a[0]), true
+		return x.sortStrings(s, a[0], c.Args[0]), true
 	}
 }
 
@@ -448,9 +448,37 @@ func (x *X) sprint(s *State, v Val) Val {
 // IfaceArr is the content of a literal []interface{} (variadic fmt arguments).
 type IfaceArr struct{ E map[int]Iface }
 
-func (x *X) sortStrings(s *State, v Val) Val {
-	x.fail("sort.Strings: model not yet available")
-	return nil
+// sortStrings: sort.Strings permutes the slice in place. The model keeps exactly that: the new content is the old one
+// under a bijection of the index range (the order itself is not modelled: strings are abstract; that the result does not
+// depend on the previous order is the business of the C14 scan).
+func (x *X) sortStrings(s *State, v Val, arg ssa.Value) Val {
+	sl, ok := v.(Sl)
+	if !ok {
+		x.fail("sort.Strings on %T", v)
+	}
+	old, ok := x.flat(s, x.slElem(s, sl)).(Sc)
+	if !ok {
+		x.fail("sort.Strings: element representation %T", x.slElem(s, sl))
+	}
+	nw := x.sym("sorted.e", old.Sort)
+	perm := x.declFun("sorted.perm", []string{"Int"}, "Int")
+	inv := x.declFun("sorted.inv", []string{"Int"}, "Int")
+	j, k := x.bound("j", "Int"), x.bound("k", "Int")
+	n := sl.Len
+	s.assume(fmt.Sprintf("(forall ((%s Int)) (! (=> (and (<= 0 %s) (< %s %s)) (and (<= 0 (%s %s)) (< (%s %s) %s) (= (select %s %s) (select %s (%s %s))) (= (%s (%s %s)) %s))) :pattern ((select %s %s))))",
+		j, j, j, n, perm, j, perm, j, n, nw, j, old.T, perm, j, inv, perm, j, j, nw, j))
+	s.assume(fmt.Sprintf("(forall ((%s Int)) (! (=> (and (<= 0 %s) (< %s %s)) (and (<= 0 (%s %s)) (< (%s %s) %s) (= (%s (%s %s)) %s) (= (select %s (%s %s)) (select %s %s)))) :pattern ((%s %s))))",
+		k, k, k, n, inv, k, inv, k, n, perm, inv, k, k, nw, inv, k, old.T, k, inv, k))
+	if sl.ID != 0 {
+		s.arrs[sl.ID] = Sc{T: nw, Sort: old.Sort}
+	} else {
+		// a slice value without a shared backing store in the model: the variable itself now denotes the sorted content
+		// (sound as long as no other variable aliases the array; the function under contract is checked for that: the
+		// argument must be a local that was only appended to)
+		s.top().env[arg] = Sl{0, sl.Len, Sc{T: nw, Sort: old.Sort}}
+	}
+	s.lets["sortedInv"] = Opq{"fn:" + inv}
+	return Tuple{}
 }
 
 func isIfaceSlice(t types.Type) bool {
